@@ -16,7 +16,13 @@ ENC = {"nop": b"\x90", "jmp": b"\xe9\0\0\0\0", "jcc": b"\x0f\x85\0\0\0\0", "call
 SYMOFF = {"jmp": 1, "jcc": 2, "call": 1}
 PATCHES = ["nop", "nop\nnop", "xchg %ax, %ax", "jmp {L}", "ret", "call {L}", "jne {L}\nnop", "nop\n.Lt:\nnop\njmp .Lt", "nop\ncall {L}\nnop",
            "nop\nret\nnop", "jne {L}", ".Ls:\ndec %eax\njne .Ls", "jmp .Le\n.string \"hi\"\n.Le:\nnop", ".Lq:\nnop", "call {L}\nxchg %ax, %ax",
-           "nop\n.Lm:\njne .Lm\nret"]
+           "nop\n.Lm:\njne .Lm\nret", "call {L}\ncall {L}", "movl $1, {L}(%rip)", "lea {L}+8(%rip), %rax"]
+# text patches for data blocks: bytes with a label behind them
+DATA_TEXT_PATCH = [".byte 0x77\n.byte 0x77\n.Ld:", ".Lh:\n.byte 0x55"]
+# the symbolic operands a patch text asks for: template -> [(offset inside the patch, addend)], all naming {L}
+PATCH_EXPRS = {"jmp {L}": [(1, 0)], "call {L}": [(1, 0)], "jne {L}\nnop": [(1, 0)], "nop\ncall {L}\nnop": [(2, 0)], "jne {L}": [(1, 0)],
+               "call {L}\nxchg %ax, %ax": [(1, 0)], "call {L}\ncall {L}": [(1, 0), (6, 0)], "movl $1, {L}(%rip)": [(2, 0)],
+               "lea {L}+8(%rip), %rax": [(3, 8)]}
 CFI_PATCHES = ["pushq %rax\n.cfi_adjust_cfa_offset 8\npopq %rax\n.cfi_adjust_cfa_offset -8", ".cfi_remember_state\nnop\n.cfi_undefined 40\nnop\n.cfi_restore_state"]
 DATA_PATCH = [b"\x01", b"\x02\x03", b"\x04\x05\x06\x07"]
 
@@ -149,7 +155,7 @@ class Case:
                 if x["kind"] == "c":
                     patch = rnd.choice(PATCHES + (CFI_PATCHES * 4 if cfi_patches else [])).replace("{L}", f"L{rnd.choice(code_idx)}")
                 else:
-                    patch = rnd.choice(DATA_PATCH)
+                    patch = rnd.choice(DATA_PATCH) if rnd.random() < 0.75 or x.get("dsym") else rnd.choice(DATA_TEXT_PATCH)
                 whole = t == "del" and off == 0 and ln == self.size(i)
                 self.mods.append((i, t, off, ln, None if t == "del" else patch, whole and to_proxy and rnd.random() < 0.4))
         # one registration through AllBlocksScope(ENTRY): an insertion at offset 0 of every code block, registered at a random
